@@ -429,6 +429,55 @@ def cost_table_part(chk, tab, mj, insts, infos_by_inst, hook):
 
 
 # ------------------------------------------------------------------------------------------
+# entry-point part: one template, context and budget through every way of rendering it
+# ------------------------------------------------------------------------------------------
+ENTRY_T = ["text only", "text split by comments", "raw block only", "empty", "text + expressions + loop", "a block", "wrapper including a text-only template",
+           "wrapper extending a text-only template", "wrapper including a template with expressions", "only a comment"]
+ENTRY_E = ["Template::render_captured", "Template::render", "Environment::render_str", "Environment::render_named_str", "second Template handle + render",
+           "Template::render_captured_to", "template_from_str + render", "template_from_named_str + render"]
+
+
+def entry_part(chk):
+    viol, cov = [], {}
+    if chk.replay:
+        rp = json.load(open(chk.replay))["replay"]
+        if "entry_case" not in rp:
+            return viol, cov
+        pairs = [tuple(rp["entry_case"][:2])]
+    else:
+        pairs = [(t, n) for t in range(len(ENTRY_T)) for n in ((0, 1, 3, 6) if not chk.thorough else range(0, 12))]
+    bigs = prun_plain([bin_path("c13_entry")], [[t, n, 0, BIG] for t, n in pairs])
+    cases, meta = [], []
+    for (t, n), o in zip(pairs, bigs):
+        if not o or o[0] != 0 or o[1] != 1 or o[2] + o[3] != BIG:
+            viol.append(("render_captured with budget 2^40 fails or does not add up", {"entry_case": [t, n, 0, BIG], "output": o[:6]}, False)); continue
+        c = o[2]
+        bs = list(range(0, c + 4)) + [2**63, 2**64 - 1]
+        if chk.replay:
+            bs = [rp["entry_case"][3]]
+        for b in bs:
+            for e in range(len(ENTRY_E)):
+                cases.append([t, n, e, b]); meta.append(c)
+    for rel in (False, True):
+        outs = prun_plain([bin_path("c13_entry", rel)], cases)
+        for case, c, o in zip(cases, meta, outs):
+            t, n, e, b = case
+            thr = 0 if c == 0 else c + 1
+            if b >= thr:
+                exp = [0, 1, c, b - c] if e in (0, 5) else [0, 1, -1, -1]
+            else:
+                exp = [1, 21]
+            if o != exp:
+                viol.append(("the same template, context and budget give different outcomes through different entry points (no single threshold)",
+                             {"entry_case": case, "template": ENTRY_T[t], "n": n, "entry_point": ENTRY_E[e], "budget": b, "cost_by_render_captured": c,
+                              "got": o[:6], "expected": exp, "profile": "release" if rel else "debug", "how": "./check C13 --replay <this file>"}, False))
+    cov["entry_cases"] = len(cases)
+    cov["entry_points"] = len(ENTRY_E)
+    cov["entry_templates"] = len(pairs)
+    return viol, cov
+
+
+# ------------------------------------------------------------------------------------------
 # history part: one State, a sequence of evaluations, levels after each
 # ------------------------------------------------------------------------------------------
 OPNAMES = ["call_macro big", "call_macro small", "call_macro empty", "call_macro mid", "render_block bigblock", "render_block smallblock",
@@ -588,7 +637,7 @@ def main():
     trace_hook = has_feature and "set_instruction_hook" in open(os.path.join(REPO, "minijinja", "src", "lib.rs")).read()
     feats = ("hooks",) if has_feature else ()
     for rel in (False, True):
-        okh, hlog = cargo_build(["c13_hist"], release=rel)
+        okh, hlog = cargo_build(["c13_hist", "c13_entry"], release=rel)
         okc, clog = okc and okh, clog + hlog
         okt, tlog = cargo_build(["c13_trace", "prog"], release=rel, features=feats)
         okc, clog = okc and okt, clog + tlog
@@ -648,6 +697,8 @@ def main():
                                                                   {x["inst"]: x for x in infos}, trace_hook)
     # --- history part
     hi_viol, hi_cov = history_part(chk, os.path.join(EXTRACT, "C13", "mjmodel"))
+    # --- entry-point part
+    en_viol, en_cov = entry_part(chk)
     # --- coverage
     hist = collections.Counter()
     nontriv = set()
@@ -661,7 +712,7 @@ def main():
         if b >= 2**63: hist["budget>=2^63"] += 1
         if cc >= 5 and b >= 1 and (b >= cc - 8):
             nontriv.add(tuple(c[:5]))
-    chk.cov["evaluations"] = (len(cases) * 2 * 4 + len(insts) * 2 * 2 * 4 + 2 * hi_cov.get("histories", 0) + 2 * ct_cov.get("trace_budget_cases", 0)
+    chk.cov["evaluations"] = (len(cases) * 2 * 4 + len(insts) * 2 * 2 * 4 + 2 * hi_cov.get("histories", 0) + 2 * en_cov.get("entry_cases", 0) + 2 * ct_cov.get("trace_budget_cases", 0)
                               + 2 * ct_cov.get("straight_line", {}).get("templates", 0))
     chk.cov["renders"] = len(infos)
     chk.cov["programs"] = nprogs
@@ -679,6 +730,7 @@ def main():
     chk.cov["distribution"] = dict(hist)
     chk.cov["out_of_fuel_reported_with_wrapper_kind"] = dict(wrapped_n)
     chk.cov["history_part"] = hi_cov
+    chk.cov["entry_point_part"] = en_cov
     chk.cov["cost_table"] = dict(ct_cov, opcodes=len(tab["names"]), zero_cost=sorted(n for n in tab["names"] if tab["cost"][n] == 0))
     chk.cov["max_cost"] = max([x["c"] for x in infos] or [0])
     chk.cov["model_vs_spec_disagreements"] = len(model_vs_spec)
@@ -702,7 +754,7 @@ def main():
             old = model("c13-old-release" if rel else "c13-old-debug", [cases[i]])[0]
             rep["explained_by_isize_counter_model"] = (old[:3] == impn[rel][i][:3])
         chk.violation(what, rep)
-    for what, rp, nfi in ct_viol[:4] + hi_viol[:4]:
+    for what, rp, nfi in ct_viol[:4] + hi_viol[:4] + en_viol[:4]:
         chk.violation(what, rp, nfi)
     if not literal_bad and not problems:
         if spec_bad:
